@@ -663,6 +663,32 @@ func (env *specEnv) evalCall(x *SCall) TV {
 		k := env.eval(x.Args[1])
 		raw := fmt.Sprintf("(- (lstartraw (sbase %s) (+ (slo %s) %s)) (slo %s))", a.T, a.T, k.T, a.T)
 		return TV{T: fmt.Sprintf("(ite (>= %s 0) %s 0)", raw, raw), Sort: "Int"}
+	case "kindof": // kindof(v): reflect.Kind of the dynamic type of interface value v
+		argn(1)
+		a := env.eval(x.Args[0])
+		u.global("(declare-fun kindof (Int) Int)")
+		if a.Sort == "Val" {
+			return TV{T: app("kindof", app("vtag", a.T)), Sort: "Int"}
+		}
+		return TV{T: app("kindof", a.T), Sort: "Int"}
+	case "box": // box(x, "T"): the interface value holding x with dynamic type T
+		argn(2)
+		a := env.eval(x.Args[0])
+		ts, ok := x.Args[1].(*SStr)
+		if !ok {
+			env.fail("box needs a type string")
+		}
+		t, err := e.resolveType(env.pkg, ts.V)
+		if err != nil {
+			env.fail("%v", err)
+		}
+		if env.fr == nil {
+			env.fail("box outside function")
+		}
+		if a.Sort == "Int" && u.sortOf(t) == "Real" {
+			a.T = app("to_real", a.T)
+		}
+		return TV{T: env.fr.makeIface(env.st, a.T, t), Sort: "Val"}
 	case "b2i":
 		argn(1)
 		a := env.eval(x.Args[0])
@@ -725,6 +751,11 @@ func (env *specEnv) evalCall(x *SCall) TV {
 		for i, a := range x.Args {
 			v := env.eval(a)
 			ps = append(ps, fmt.Sprintf("(p%d %s)", i, specSort(sf.Params[i])))
+			if sf.SMTBody == "" && specSort(sf.Params[i]) == "Str" && v.Sort == "Str" {
+				// uninterpreted spec functions see strings through their canonical key (extensional)
+				args = append(args, app("skey", v.T))
+				continue
+			}
 			if v.Sort != specSort(sf.Params[i]) {
 				if v.Sort == "Int" && specSort(sf.Params[i]) == "Real" {
 					v.T = app("to_real", v.T)
@@ -783,6 +814,11 @@ func (e *Engine) declareSpec(sf *SpecFunc, busy map[string]bool) {
 		}
 		u.global(fmt.Sprintf("(define-fun %s (%s) %s %s)", name, strings.Join(ps, " "), specSort(sf.Result), sf.SMTBody))
 	} else {
+		for i := range pss {
+			if pss[i] == "Str" {
+				pss[i] = "Int"
+			}
+		}
 		u.global(fmt.Sprintf("(declare-fun %s (%s) %s)", name, strings.Join(pss, " "), specSort(sf.Result)))
 	}
 }
